@@ -185,6 +185,15 @@ def init_worker(tier):
     _STATE["seeds"] = {}
 
 
+def _clean_workdir():
+    work = _STATE.get("workdir")
+    if work and os.path.isdir(work):
+        for name in os.listdir(work):
+            path = os.path.join(work, name)
+            if os.path.isfile(path):
+                os.remove(path)
+
+
 class SeedState:
     """Per-process cache for one seed: parse results, pristine fingerprint,
     targets."""
@@ -279,6 +288,10 @@ class SeedState:
     def gen_text(self, inst):
         """psy.gen text (mutates the instance: it is marked dirty)."""
         inst["dirty"] = True
+        # transformed kernels are written to the kernel output directory under
+        # a name that depends on the files already there: start from an
+        # empty directory so that the text is a function of the tree only
+        _clean_workdir()
         try:
             return str(inst["psy"].gen)
         except Exception as err:  # pylint: disable=broad-except
